@@ -86,10 +86,13 @@ class EditCheck:
         # paths must be untouched; new paths outside the edited key are only accepted there, and only for an add
         changed = {p for p in outside_b if outside_a.get(p) != outside_b[p]}
         extra = {p for p in outside_a if p not in outside_b}
-        fs_prefix = mpath[:3] + ("file_system",) if len(mpath) >= 3 else None
-        extra_bad = {p for p in extra if kind != "add" or fs_prefix is None or p[:4] != fs_prefix}
+        # (the database service creates its folder and file and installs the ftp client it depends on): secondary ADD edits
+        # below the same node are accepted for an add — old paths must be untouched in any case
+        node_prefix = mpath[:3] if len(mpath) >= 3 and mpath[:2] == ("network", "node") else None
+        extra_bad = {p for p in extra if kind != "add" or node_prefix is None or p[:3] != node_prefix
+                     or p[3] not in ("file_system", "service", "application")}
         if extra - extra_bad:
-            self.ctx.count("edits:secondary-file-system-adds", len(extra - extra_bad))
+            self.ctx.count("edits:secondary-adds-below-the-same-node", len(extra - extra_bad))
         if changed or extra_bad:
             self.bad.append(f"{self.label}: {what}: paths outside {through} changed: {sorted(changed | extra_bad, key=str)[:3]}")
         if kind == "add":
@@ -112,6 +115,8 @@ class EditCheck:
         return res
 
     def order(self, keys_before, op, key, keys_after, what):
+        if op == "add":   # keys registered by secondary adds (dependencies) come after; the model speaks about the primary key
+            keys_after = [k for k in keys_after if k in keys_before or k == key]
         self.order_lines.append(f"edit {op} " + " ".join(rreq.enc(k) for k in keys_before) + " -- " + rreq.enc(key))
         self.order_expect.append((what, [rreq.enc(k) for k in keys_after]))
 
